@@ -190,8 +190,8 @@ func TestAlloc(t *testing.T) {
 				core.RunCase(t, "alloc", Alloc{Limit: L, Kind: k, N: n}, RunAlloc)
 			}
 		}
-		for _, k := range []string{"bind-value-length", "copy-field-length", "frame-length", "parse-parameters-index"} {
-			for _, n := range []uint32{0, 3, 4, 5, 1 << 16, 1<<31 - 1, 1 << 31, 1<<31 + 1, 1<<32 - 2, 1<<32 - 1} {
+		for _, k := range []string{"bind-value-length", "copy-field-length", "copy-field-length-2msgs", "copy-ext-length-2msgs", "frame-length", "parse-parameters-index"} {
+			for _, n := range []uint32{0, 3, 4, 5, 1 << 16, 1 << 28, 1<<31 - 1, 1 << 31, 1<<31 + 1, 1<<32 - 2, 1<<32 - 1} {
 				if k == "parse-parameters-index" && L < 32 {
 					continue
 				}
